@@ -1,7 +1,41 @@
 //! E2 `seqmc`: real crate + real dependencies; explicit-state search over operation histories and
 //! bounded-exhaustive inputs against reference models (see /verif/DESIGN.md §2.2).
+mod c01g;
+mod c02;
+mod c12;
+mod c13;
+mod ledger;
+
 fn main() {
+    std::panic::set_hook(Box::new(|_| {}));
     let args = vcommon::parse_args();
-    eprintln!("unknown subcheck {}", args.subcheck);
-    std::process::exit(2)
+    if let Some(p) = &args.replay {
+        let v: serde_json::Value = serde_json::from_slice(&std::fs::read(p).expect("replay file")).expect("json");
+        let v2 = v.clone();
+        let r = if v.get("replay").is_some() { v["replay"].clone() } else { v };
+        let code = match r["harness"].as_str().unwrap_or("") {
+            "c02" => c02::replay(&r),
+            "c12" => c12::replay(&v2),
+            h => {
+                eprintln!("unknown harness {h}");
+                2
+            }
+        };
+        std::process::exit(code);
+    }
+    let res = match args.subcheck.as_str() {
+        "c01_growth" => c01g::run(&args),
+        "c02_map" => c02::run(&args, "C02"),
+        "c13_history" => c02::run(&args, "C13"),
+        "c12_watcher" => c12::run(&args),
+        "c13_types" => c13::run(&args),
+        s => {
+            eprintln!("unknown subcheck {s}");
+            std::process::exit(2)
+        }
+    };
+    match &args.out {
+        Some(o) => res.write(o),
+        None => println!("{}", serde_json::to_string_pretty(&res).unwrap()),
+    }
 }
